@@ -31,7 +31,9 @@ TECHNIQUE = "Lean 4 proof (induction over the topological node list; reachabilit
 LEAN_PROPS = ["EkwVerif.Props.C12"]
 LEAN_DRIVERS = ["C12"]
 RULE = ("random DAG specs of 0-12 nodes (default-output, output-less and multi-output nodes; 0-3 inputs each from any earlier node's outputs, so "
-        "parents are shared; odd names; payloads None/int/str/bool/list/tuple/dict nested to depth 3; sinks = all terminal nodes, a subset of them, "
+        "parents are shared; odd names; in 55% of the specs node names, output names and input-parameter names come from ONE pool of 26 names "
+        "(incl. '0' = DEFAULT_OUTPUT, '1', '__default__', dotted 'stats.mean' next to 'stats'/'mean', prefixes/suffixes 'n','n1','n10'), node "
+        "names being preferably the output names earlier nodes declare and references preferring named outputs, names kept unique; payloads None/int/str/bool/list/tuple/dict nested to depth 3; sinks = all terminal nodes, a subset of them, "
         "or terminals plus inner nodes), graphs of random fluent programs (from_source with/without yields, map, sum/mean/max/min/prod with batching, "
         "add/multiply with scalar and action, select, concatenate, stack; single actions and Cascade.from_actions unions), and hand-damaged dicts. "
         "non-trivial = graph with >= 3 nodes having a terminal node with outputs or a multi-output parent; distinct by content hash")
@@ -107,30 +109,66 @@ def gen_payload(rng, depth=0):
     return {rng.choice(["k", "a", "b", "0"]): gen_payload(rng, depth + 1) for _ in range(rng.randint(0, 2))}
 
 
+# one small pool for the three namespaces (node names, output names, input-parameter names): a node may be called like
+# an output of another node, like one of its own outputs or parameters, like a serialised reference "parent.output",
+# like a prefix / suffix of another name, or like the default output
+POOL = ["0", "1", "2", "x", "y", "out", "aux", "a", "b", "in", "input0", "input1", "mean", "std", "stats", "__default__",
+        "a.b", "x.y", "stats.mean", "in0", "n", "n1", "n10", "ab", "0.1", "00"]
+_NOT_A_PARAM = {"name", "outputs", "payload", "self"}        # parameter names of Node.__init__ itself
+
+
+def _node_name(rng, i, used, earlier_outs, collide):
+    if not collide:
+        nm = rng.choice(["0", "x.y", "a b", "n", "name-1", "Ω"]) if rng.random() < 0.1 else "n%d" % i
+    else:
+        r = rng.random()
+        cands = []
+        if r < 0.4:                                   # the name of an output some earlier node declares
+            cands = sorted({o for o in earlier_outs if o not in used})
+        if not cands and r < 0.85:
+            cands = [p for p in POOL if p not in used]
+        if cands:
+            nm = rng.choice(cands)
+        elif used:                                    # prefix / suffix / dotted extension of an existing name
+            base = rng.choice(used)
+            nm = rng.choice([base + ".0", base + "0", base[:-1] or "n", "0" + base, base + "." + rng.choice(POOL), base + "."])
+        else:
+            nm = rng.choice(POOL)
+    while nm in used:
+        nm += "'"
+    return nm
+
+
 def gen_spec(rng, maxn):
     n = rng.choice([0, 1, 2]) if rng.random() < 0.08 else rng.randint(2, maxn)
-    odd = ["0", "x.y", "a b", "n", "name-1", "Ω"]
+    collide = rng.random() < 0.55
     names = []
-    for i in range(n):
-        nm = rng.choice(odd) if rng.random() < 0.1 else "n%d" % i
-        while nm in names:
-            nm += "'"
-        names.append(nm)
     nodes = []
     for i in range(n):
+        names.append(_node_name(rng, i, names, [o for p in nodes for o in p["outputs"]], collide))
         x = rng.random()
-        if x < 0.5:
+        if x < (0.4 if collide else 0.5):
             outputs = [D]
-        elif x < 0.62:
+        elif x < (0.5 if collide else 0.62):
             outputs = []
+        elif collide:
+            # output names from the pool and from the names of the nodes (this one's too)
+            outputs = rng.sample(sorted(set(POOL) | set(names)), rng.randint(1, 3))
         else:
             outputs = rng.choice([["x", "y"], ["0", "1", "2"], ["out"], ["0", "aux"], ["b", "a"]])
         cands = [(p["name"], o) for p in nodes for o in p["outputs"]]
         inputs = []
         if cands:
             k = rng.choice([0, 1, 1, 2, 2, 3])
-            for iname in rng.sample(["input0", "input1", "a", "b", "in"], k):
-                if rng.random() < 0.6:          # prefer recent nodes: deeper graphs
+            if collide:
+                ipool = sorted((set(POOL) | set(names) | {o for _, o in cands}) - _NOT_A_PARAM)
+            else:
+                ipool = ["input0", "input1", "a", "b", "in"]
+            named = [c for c in cands if c[1] != D]
+            for iname in rng.sample(ipool, k):
+                if collide and named and rng.random() < 0.45:   # a reference that is serialised with the output's name
+                    par, out = rng.choice(named)
+                elif rng.random() < 0.6:          # prefer recent nodes: deeper graphs
                     par, out = rng.choice(cands[-4:])
                 else:
                     par, out = rng.choice(cands)
@@ -500,6 +538,25 @@ def _account(ctx, spec, impl):
         ctx.count("payload:" + n["payload"]["t"])
         for i in n["inputs"]:
             ctx.count("input:" + ("default-output" if i[2] == D else "named-output"))
+    if spec["kind"] == "dag":
+        node_names = {n["name"] for n in spec["nodes"]}
+        out_names = {o for n in spec["nodes"] for o in n["outputs"]}
+        ref_outs = {i[2] for n in spec["nodes"] for i in n["inputs"] if i[2] != D}
+        par_names = {i[0] for n in spec["nodes"] for i in n["inputs"]}
+        if node_names & out_names:
+            ctx.count("graphs-node-named-like-an-output")
+        if any(n["name"] not in consumed and n["name"] in ref_outs for n in spec["nodes"]):
+            ctx.count("graphs-terminal-node-named-like-a-referenced-output")
+        if any(n["name"] in consumed and n["name"] in ref_outs for n in spec["nodes"]):
+            ctx.count("graphs-inner-node-named-like-a-referenced-output")
+        if node_names & par_names:
+            ctx.count("graphs-node-named-like-an-input-parameter")
+        if any(a != b and (a.startswith(b) or a.endswith(b)) for a in node_names for b in node_names if b):
+            ctx.count("graphs-node-name-prefix-or-suffix-of-another")
+        if any(n["name"] in n["outputs"] for n in spec["nodes"]):
+            ctx.count("graphs-node-named-like-its-own-output")
+        if any("%s.%s" % (i[1], i[2]) in node_names for n in spec["nodes"] for i in n["inputs"]):
+            ctx.count("graphs-node-named-parent.output-of-a-reference")
     if not spec["nodes"]:
         ctx.count("empty-graph")
     if len(spec["sinks"]) > 1:
